@@ -111,6 +111,10 @@ def latest(ctx) -> None:
     text = core.src(sel.node)
     ctx.check('if registry not in self._cache' in text and 'self._cache[registry] = self._pick(registry)' in text and 'return self._cache[registry]' in text, 'C17.latest', sel, 'select serves the cached pick of the given registry (first call picks)', sel.node, key='select:cache')
     ctx.check('self._refresher.start()' in text and 'not self._refresher.is_alive()' in text, 'C17.latest', sel, 'the refresher is started with the first pick', sel.node, key='select:refresher')
+    U = shared.stmt_under
+    U(ctx, 'C17.latest', sel, 'self._refresher.start()', [('registry not in self._cache', True), ('self._refresher.is_alive()', False)], 'the refresher is started with the first pick, exactly when it is not running yet', 'select:refresher-guards', inlined=False)
+    U(ctx, 'C17.latest', sel, 'self._cache[registry] = self._pick(registry)', [('registry not in self._cache', True)], 'a registry seen for the first time gets its pick', 'select:first-pick', inlined=False)
+    U(ctx, 'C17.latest', sel, 'return self._cache[registry]', [], 'every request is served from the cache entry of its own registry', 'select:return', inlined=False, siblings=False)
     ctx.check('threading.Thread(target=self._refresh, daemon=True)' in core.src(init.node), 'C17.latest', init, 'the refresher thread runs _refresh', init.node, key='init:refresher')
 
 
@@ -163,6 +167,12 @@ def abtest(ctx) -> None:
     ctx.check(oki, 'C17.abtest', init, 'an omitted target is the complement to 1 shared by the omitted variants (fractions) or the mean of the provided integer weights (sum / number of provided targets) as documented', imp or init.node, key='init:implicit-weight')
     ctx.check('len(set(variants)) != len(variants)' in text and 'raise ValueError' in text, 'C17.abtest', init, 'duplicate variants are rejected', init.node, key='init:exclusive')
     ctx.check('targets = [v.target or implicit for v in variants]' in text, 'C17.abtest', init, 'omitted targets are filled position-wise', init.node, key='init:implicit')
+    # builder: an omitted project/release of a further variant is inherited from the previous one; a given one wins
+    ov = prog.func(f'{ci.ref}.Builder.over')
+    vcalls = [c for c in core.calls_in(ov.node) if core.call_tail(c) == 'Variant']
+    okv = len(vcalls) == 1 and [core.src(a) for a in vcalls[0].args] == ['project or last.project', 'release or last.release', 'generation', 'target'] and not vcalls[0].keywords
+    ctx.check(okv, 'C17.abtest', ov, 'over(): Variant(project or previous project, release or previous release, generation, target)', vcalls[0] if vcalls else ov.node, key='builder:over')
+    ctx.check('last = self._variants[-1]' in core.src(ov.node) and 'self._variants.append(' in core.src(ov.node), 'C17.abtest', ov, 'the previous variant is the last one added; the new one is appended after it', ov.node, key='builder:last')
     var = prog.func(f'{ci.ref}.Variant.__new__')
     gs = [core.src(t) for r in core.walk_local(var.node) if isinstance(r, ast.Raise) for t, pol in cfg.guards(r, var.node) if pol]
     ctx.check('target is not None and target <= 0' in gs, 'C17.abtest', var, 'non-positive targets are rejected', var.node, key='variant:positive')
